@@ -324,8 +324,10 @@ func (m *canaryReleaseManager) doCanaryJump(c *RolloutContext) (jumped bool) {
 		canaryStatus.CurrentStepIndex = nextIndex
 		canaryStatus.NextStepIndex = util.NextBatchIndex(c.Rollout, nextIndex)
 		nextStep := c.Rollout.Spec.Strategy.Canary.Steps[nextIndex-1]
-		// compare next step and current step to decide the state we should go
-		if reflect.DeepEqual(nextStep.Replicas, currentStep.Replicas) {
+		// compare next step and current step to decide the state we should go:
+		// traffic can be routed right away only if the pods of the current step (the same number of
+		// pods as the target step needs) have already been upgraded and reported ready
+		if reflect.DeepEqual(nextStep.Replicas, currentStep.Replicas) && isStepUpgraded(currentStepStateBackup) {
 			canaryStatus.CurrentStepState = v1beta1.CanaryStepStateTrafficRouting
 		} else {
 			canaryStatus.CurrentStepState = v1beta1.CanaryStepStateInit
